@@ -11,5 +11,5 @@ s=s.replace(old,new,1)
 open(f,'w').write(s)
 PY
 [ $? -eq 3 ] && exit 3
-cd /verif; ./check $id --tier ${TIER:-quick} 2>&1 | grep -E "VIOLATION|OK property|INCONCLUSIVE|violated|KNOWN" | head -5
+cd /verif; ./check $id --tier ${TIER:-quick} 2>&1 | grep -a -E "VIOLATION|OK property|INCONCLUSIVE|violated|KNOWN" | head -5
 git -C /repo checkout -- . 
